@@ -132,6 +132,8 @@ type Shim struct {
 
 	// fault knobs
 	PredFlapP   float64
+	SideEffectP float64
+	sideEffect  func(node, key string)
 	CBErrorP    float64
 	rng         *Rng
 	faults      map[string]int
@@ -314,13 +316,21 @@ func (cb *shimCB) Predicates(args *si.PredicatesArgs) error {
 		return nil
 	}
 	s.mu.Lock()
-	defer s.mu.Unlock()
 	ok := true
 	if s.PredFlapP > 0 && s.rng.Bool(s.PredFlapP) {
 		ok = false
 		s.faults["predicate_flap"]++
 	}
+	side := ok && args.Allocate && s.SideEffectP > 0 && s.sideEffect != nil && s.rng.Bool(s.SideEffectP)
+	s.mu.Unlock()
+	if side {
+		// the world changes while the predicate is being evaluated (no scheduler lock is held here): the shim
+		// reports it and the core has processed it before the predicate returns
+		s.sideEffect(args.NodeID, args.AllocationKey)
+	}
+	s.mu.Lock()
 	s.Preds = append(s.Preds, PredCall{Step: s.Step, Key: args.AllocationKey, Node: args.NodeID, Allocate: args.Allocate, OK: ok})
+	s.mu.Unlock()
 	if !ok {
 		return fmt.Errorf("injected predicate failure")
 	}
@@ -424,6 +434,10 @@ func (s *Shim) onReleased(r *si.AllocationRelease) {
 			if !m.ReleaseSent && !s.appGone(m.App) && !s.nodeGone(m.Node) {
 				s.violate("C04", "release-not-bound", "STOPPED_BY_RM", "release of %s which is neither bound nor outstanding", m.Key)
 			}
+		case stPending:
+			// the statement allows a release that names an ask still outstanding (e.g. the ask was bound to a node that
+			// was removed at that very moment and never announced): the ask stays outstanding for the shim
+			s.faults["probe_release_of_pending_ask"]++
 		default:
 			// node removal or application removal releases what was bound; the shim did not ask
 			// for this key itself, so something it did ask for must explain it
